@@ -26,7 +26,7 @@ def plus_secs(d, s):
 
 
 def generate(rng, tier):
-    n = 2500 if tier == "quick" else 50000
+    n = 8000 if tier == "quick" else 80000
     cases = []
     for i in range(n):
         md = MODES[i % 4]
